@@ -195,6 +195,18 @@ def corruptions(call, args):
         yield (f"size {k} wrong type", desc, arrs, {**kw, k: "3"})
         yield (f"size {k} negative", desc, arrs, {**kw, k: (tuple(-x for x in v) if isinstance(v, tuple) else -v)})
     yield ("unknown size keyword", desc, arrs, {**kw, "qq": 3})
+    # every size given explicitly (ellipsis axes as per-repetition tuples), then one corruption of a tensor rank / a tuple length
+    full = {k: v for k, v in (getattr(call, "env", None) or {}).items() if k != "..."}
+    if any(isinstance(v, tuple) for v in full.values()):
+        kwf = {**kw, **full}
+        for i, a in enumerate(args):
+            if a.ndim >= 1:
+                yield (f"all sizes explicit + rank-1 arg{i}", desc, arrs[:i] + [spy(a[..., 0])] + arrs[i + 1:], kwf)
+                yield (f"all sizes explicit + rank+1 arg{i}", desc, arrs[:i] + [spy(a[..., None].repeat(2, -1))] + arrs[i + 1:], kwf)
+        for k, v in full.items():
+            if isinstance(v, tuple):
+                yield (f"all sizes explicit + one repetition more for {k}", desc, arrs, {**kwf, k: v + (2,)})
+                if v: yield (f"all sizes explicit + one repetition less for {k}", desc, arrs, {**kwf, k: v[:-1]})
     # token-level edits of the description: drop / duplicate / rename one axis, add / remove / move one bracket
     toks = re.findall(r"\.\.\.|->|[A-Za-z_]\w*|\d+|\S", desc)
     def join(ts):
@@ -226,6 +238,7 @@ def work_corrupt(chunk):
     hist = collections.Counter(); bad = []
     for j in items:
         call = gen.Call.from_json(j)
+        if j.get("env"): call.env = {k: (tuple(v) if isinstance(v, list) else v) for k, v in j["env"].items()}
         try:
             args = calls.build_args(call, seed)
         except Exception:
@@ -323,7 +336,7 @@ def work_rules(_):
 
 def gen_unit(u):
     ops, Rk, k = u
-    return [c.to_json() for c in gen.corpus(ops, Rk, k, ("distinct",))]
+    return [c.to_json() | {"env": c.env} for c in gen.corpus(ops, Rk, k, ("distinct",))]
 
 
 QUICK = [(["id"], 2, 1), (["sum"], 2, 1), (["add"], 2, 0), (["dot"], 2, 0), (["get_at"], 2, 0), (["add_at"], 2, 0), (["flip", "argmax", "roll", "sort"], 2, 0), (["where", "subtract"], 1, 1)]
